@@ -26,6 +26,7 @@ EXPLANATION += " R20.19: in the word finder an offset clamped to len(self.code) 
 EXPLANATION += " R20.20: in the repair of an incomplete line the `pass` placeholder keeps the statement's own indentation or goes one level inside the header above it."
 EXPLANATION += " R20.22: in FixSyntax an offset into the typed code reaches a table of the repaired module only through transferred_offset."
 EXPLANATION += " R20.21: a line number obtained by counting line breaks is incremented by one before it is handed to a function that takes line numbers."
+EXPLANATION += " R20.23: in the completion module the parameter names of an object that comes from get_object() are read only under isinstance(<object>, <function class>) -- in the function or on every non-None return of the private step that hands the object back."
 ASSUMPTIONS = ["proposal name is the first constructor argument"]
 
 PROPOSALS = {"CompletionProposal", "NamedParamProposal"}
